@@ -1,6 +1,6 @@
 (* HiD/LexerProofs.v -- theorems about the reference lexer (HiD/Lexer.v).  Component `lexer`, C12.
    Everything holds for every instantiation of the three non-ASCII oracles.  Contents:
-     (a) integers        scan_tail, read_int_render, lex_int_render
+     (a) integers        scan_tail, read_int_render, read_int_too_large, lex_int_render
      (b) escapes/UTF-8   byte_escape_all, simple_escape_all, escape_codes_standard,
                          utf8_roundtrip, utf8_encode_bytes, unicode_escape_value,
                          read_string_render, lex_string_hex_roundtrip, lex_string_raw_scalars,
@@ -12,7 +12,9 @@
                          example ex_laid / ex_lexes
      all inputs          read_token_suffix, lex_lines_fuel (the model never runs out of fuel),
                          lex_spans_exact (every span is exactly the text the token came from)
-     leaks               leak_overflow_witness, leak_raw_surrogate_witness, leak_int_digits_witness *)
+     error discipline    read_int_too_large, unicode_escape_too_large,
+                         huge_codepoint_is_lexer_error, long_decimal_is_lexer_error,
+                         leak_raw_surrogate_witness (the one leak left) *)
 From Coq Require Import ZArith List Bool Lia.
 From HidV Require Import GenLexer Lexer.
 Import ListNotations.
@@ -348,6 +350,28 @@ Proof.
     destruct (Z.ltb_spec int_max_str_digits (1 + len ds)); [lia|reflexivity].
 Qed.
 
+(* beyond CPython's conversion limit a decimal literal is the LexerError 'Integer literal too
+   large', raised at the end of the literal; the other three bases have no limit *)
+Theorem read_int_too_large : forall d ds seps k,
+  Forall (valid_digit Dec) (d :: ds) -> stops Dec k -> not_letter k ->
+  int_max_str_digits < len (d :: ds) ->
+  read_int (render_int Dec (d :: ds) seps ++ k) = RErr EIntTooLarge k.
+Proof.
+  intros d ds seps k Hv Hs Hk Hlen.
+  inversion Hv as [|? ? [v Hd] Hv']; subst.
+  unfold Lexer.read_int, render_int, render_digits. cbn [base_prefix app].
+  assert (HT : not_letter (render_tail ds seps ++ k)).
+  { destruct ds as [|d' ds']; [exact Hk|].
+    inversion Hv' as [|? ? [v' Hd'] _]; subst. cbn [render_tail].
+    destruct (hd false seps); cbn; [lia|]. eapply dec_val_not_letter. exact Hd'. }
+  rewrite !read_prefixed_none by (auto; lia).
+  unfold Lexer.read_dec. cbn [Lexer.digit_val] in Hd. rewrite Hd.
+  change (Lexer.scan_digits uni_digit Dec) with (scan_digits Dec).
+  rewrite (scan_tail Dec) by assumption.
+  rewrite len_cons in Hlen.
+  destruct (Z.ltb_spec int_max_str_digits (1 + len ds)); [reflexivity|lia].
+Qed.
+
 Definition lex_int (s : list Z) : option Z :=
   match read_int s with RTok (TInt v) [] => Some v | _ => None end.
 
@@ -488,6 +512,27 @@ Proof.
   rewrite E. cbn [Z.eqb Pos.eqb].
   destruct (Z.ltb_spec cp 1114112); [|lia].
   unfold encode_escaped. rewrite Hs. reflexivity.
+Qed.
+
+(* any value above 10FFFF -- however large -- is the LexerError 'Invalid unicode codepoint',
+   raised after the closing brace *)
+Theorem unicode_escape_too_large : forall d ds k,
+  Forall hex_valid (d :: ds) ->
+  let cp := int_value Hex (d :: ds) in
+  1114112 <= cp ->
+  read_escape (117 :: 123 :: d :: ds ++ 125 :: k) = EErr (EBadCodepoint cp) k.
+Proof.
+  intros d ds k Hv cp Hge.
+  inversion Hv as [|? ? [v Hd] Hv']; subst.
+  unfold Lexer.read_escape. cbn [Z.eqb Pos.eqb]. unfold Lexer.read_unicode_escape.
+  cbn [Z.eqb Pos.eqb]. rewrite Hd.
+  change (Lexer.scan_hex uni_digit) with scan_hex.
+  rewrite scan_hex_app; [|assumption|exact hex_val_rcurly].
+  assert (E : horner Hex v ds = cp).
+  { unfold cp, int_value. cbn [horner]. unfold dval at 1. cbn [Lexer.digit_val]. rewrite Hd.
+    rewrite Z.mul_0_l, Z.add_0_l. reflexivity. }
+  rewrite E. cbn [Z.eqb Pos.eqb].
+  destruct (Z.ltb_spec cp 1114112); [lia|reflexivity].
 Qed.
 
 (* ---- literal items: everything that can stand inside quotes ---- *)
@@ -1696,7 +1741,7 @@ Proof.
   destruct (cp <? 1114112).
   - apply encode_escaped_rest in H. subst r.
     apply suffix_cons, suffix_cons. eapply suffix_trans; [|exact Hs]. apply suffix_cons, suffix_refl.
-  - destruct (cp <? 2147483648); discriminate.
+  - discriminate.
 Qed.
 
 Lemma read_escape_suffix : forall after_bs bs r, read_escape after_bs = EOk bs r -> suffix r after_bs.
@@ -2086,22 +2131,25 @@ Qed.
 End FollowSpace.
 
 (* ======================================================================================== *)
-(* hidc leaves its own error discipline (C10 material, visible through the lexer): inputs on   *)
-(* which the faithful model -- like hidc -- ends with a leaked non-LexerError exception        *)
+(* Error discipline.  Two former leaks are LexerErrors now (/repo 4ec1d5f, 0d6dc46): concrete   *)
+(* inputs with kind and position.  One leak is left (a lone surrogate in the source str).      *)
 (* ======================================================================================== *)
 
-(* "\u{80000000}"  ->  OverflowError from chr() *)
-Example leak_overflow_witness :
-  snd (lex_text no_space no_word no_digit
-         [34; 92; 117; 123; 56; 48; 48; 48; 48; 48; 48; 48; 125; 34]) = OCrash COverflowChr.
+(* "\u{80000000}"  ->  'Invalid unicode codepoint: 80000000' at 1:14 (0-based column 13) *)
+Example huge_codepoint_is_lexer_error :
+  lex_text no_space no_word no_digit
+    [34; 92; 117; 123; 56; 48; 48; 48; 48; 48; 48; 48; 125; 34]
+  = ([], OErr (EBadCodepoint 2147483648) 0 13).
 Proof. vm_compute. reflexivity. Qed.
 
-(* a raw surrogate code point (U+D800) inside a string literal -> UnicodeEncodeError *)
+(* a decimal literal of 4301 digits -> 'Integer literal too large' at the end of the literal;
+   4300 digits are still a token *)
+Example long_decimal_is_lexer_error :
+  lex_text no_space no_word no_digit (repeat 49 (Z.to_nat 4301)) = ([], OErr EIntTooLarge 0 4301)
+  /\ snd (lex_text no_space no_word no_digit (repeat 49 (Z.to_nat 4300))) = ODone (0, 4300).
+Proof. vm_compute. split; reflexivity. Qed.
+
+(* a raw surrogate code point (U+D800) inside a string literal -> UnicodeEncodeError (leaked) *)
 Example leak_raw_surrogate_witness :
   snd (lex_text no_space no_word no_digit [34; 55296; 34]) = OCrash CEncodeRaw.
-Proof. vm_compute. reflexivity. Qed.
-
-(* a decimal literal of 4301 digits -> ValueError (CPython's int-string conversion limit) *)
-Example leak_int_digits_witness :
-  snd (lex_text no_space no_word no_digit (repeat 49 (Z.to_nat 4301))) = OCrash CIntDigits.
 Proof. vm_compute. reflexivity. Qed.
